@@ -122,6 +122,9 @@ func campaignC16(p *Parser, req *Request, resp *Response) {
 		return
 	}
 	const optsMsg = "Parse wrote into the spare capacity of the option slice it was given: a program that keeps several option lists in one array (common := make([]Option, 0, 8); strict := append(common, MaxExpressions(n))) loses the options stored there - the budget of a later call among them"
+	if R.InputTailModified {
+		viol(ref, "caller-memory-modified", "Parse wrote behind the input slice it was given (a window on a larger buffer of the caller's)", nil)
+	}
 	if R.OptsModified {
 		viol(ref, "caller-options-modified", optsMsg, nil)
 		return
@@ -509,6 +512,27 @@ func campaignC16(p *Parser, req *Request, resp *Response) {
 		if bad != "" {
 			resp.Violations = append(resp.Violations, Violation{Class: "unexhausted-differs", Attrs: attrs(N+3, "unexhausted-differs"),
 				Msg: fmt.Sprintf("MaxExpressions(%d) suffices when the call is made alone (it needs %d expressions), but made right after another call of the same process it %s", N+3, N, bad)})
+		}
+	}
+	// the error of an exhausted call is kept by its caller while other calls
+	// of the process run (and fail in their own ways): it must go on saying
+	// what it said
+	if ticksKnown && !refExhausted && N >= 4 && len(req.Budgets) == 0 && len(req.Carries) == 0 && len(resp.Violations) == 0 {
+		cb := call
+		cb.Opts.MaxExpr = N/2 + 1
+		held := p.Solo(&cb, req.Pool, int64(ref+2)*C)
+		for k := 0; k < 2; k++ {
+			cn := call
+			cn.Opts.MaxExpr = N/3 + uint64(k)
+			cn.Plan.ErrPct = 60
+			cn.Plan.Faults = nil
+			p.After(&cn, int64(ref+2)*C)
+		}
+		resp.Runs += 3
+		resp.stat("budget_errors_held_across_later_calls", 1)
+		if now := held.ErrTextNow(); !held.Aborted && !held.Overflow && held.Escaped == "" && now != held.ErrText {
+			resp.Violations = append(resp.Violations, Violation{Class: "returned-error-changed-later", Attrs: attrs(N/2+1, "returned-error-changed-later"),
+				Msg: fmt.Sprintf("MaxExpressions(%d) returned %q; after two later calls of the same process the error its caller kept reads %q", N/2+1, held.ErrText, now)})
 		}
 	}
 	if req.Full {
